@@ -22,7 +22,7 @@ def install(E):
     def conc(E, st, v, what, limit=None):
         if type(v) is int: return v
         if is_bool(v): v = b2bv(v, 32)
-        return E.concretize(st, v, what, limit)
+        return E.concretize(st, v, what, limit, representative=('length' in what or 'size' in what or 'count' in what or 'capacity' in what))
 
     # ------------------------------------------------------------ memory
     @reg('malloc')
@@ -397,7 +397,7 @@ def install(E):
     def _fseek(E, st, fr, a, d):
         fp = P_(E, st, a[0]); off = a[1]; wh = conc(E, st, a[2], 'whence')
         name, pos, mode, pend = fstate(st, fp, 'fseek')
-        off = conc(E, st, off, 'fseek offset', 64)
+        if type(off) is not int: off = E.concretize(st, off, 'fseek offset', 16, representative=True)
         off = to_signed(off, 64)
         size = len(st.env['files'][name])
         np_ = off if wh == 0 else (pos + off if wh == 1 else size + off)
@@ -542,6 +542,36 @@ def install(E):
     # ------------------------------------------------------------ zlib / zstd contract stubs (libraries are outside every claim)
     def lib_result(E, st, nm, bits=64):
         v = z3.BitVec('%s#%d' % (nm, len(st.syms)), bits); st.syms.append(('%s#%d' % (nm, len(st.syms)), v)); return v
+    # zlib streaming API as used by compression/gzip.c: contract stubs over the z_stream fields (x86-64 layout:
+    # next_in 0, avail_in 8, total_in 16, next_out 24, avail_out 32, total_out 40)
+    @reg('inflateInit2_', 'inflateInit_', 'deflateInit2_', 'deflateInit_')
+    def _zinit(E, st, fr, a, d):
+        r = lib_result(E, st, 'zlib_init', 32)
+        E.add_pc(st, z3.Or(r == 0, r == BVV(0xFFFFFFFC, 32), r == BVV(0xFFFFFFFE, 32))); st.model = None    # Z_OK, Z_MEM_ERROR, Z_STREAM_ERROR
+        return r
+    @reg('inflateEnd', 'deflateEnd', 'inflateReset', 'deflateReset')
+    def _zend(E, st, fr, a, d): return 0
+    @reg('inflate', 'deflate')
+    def _zrun(E, st, fr, a, d):
+        strm = P_(E, st, a[0])
+        nin = E.load(st, Ptr(strm.obj, strm.off + 0), 8); ain = conc(E, st, E.load(st, Ptr(strm.obj, strm.off + 8), 4), 'zlib avail_in size', 16)
+        nout = E.load(st, Ptr(strm.obj, strm.off + 24), 8); aout = conc(E, st, E.load(st, Ptr(strm.obj, strm.off + 32), 4), 'zlib avail_out size', 16)
+        nin = P_(E, st, nin); nout = P_(E, st, nout)
+        if ain: E.read_bytes(st, nin, ain, 'zlib input')                 # the library may read all of the declared input
+        produced = lib_result(E, st, 'zlib_produced', 32)
+        E.add_pc(st, z3.ULE(produced, BVV(aout, 32))); st.model = None
+        if aout:
+            E.read_bytes(st, nout, aout, 'zlib output')                  # ... and write anywhere in the declared output
+            cells = []
+            for i in range(aout):
+                v = z3.BitVec('zlib_out%d#%d' % (i, len(st.syms)), 8); st.syms.append((str(v), v)); cells.append(v)
+            E.write_bytes(st, nout, cells)
+        E.store(st, Ptr(strm.obj, strm.off + 8), 0, 4)
+        E.store(st, Ptr(strm.obj, strm.off + 32), BVV(aout, 32) - produced, 4)
+        E.store(st, Ptr(strm.obj, strm.off + 40), z3.ZeroExt(32, produced), 8)
+        r = lib_result(E, st, 'zlib_status', 32)
+        E.add_pc(st, z3.Or(r == 0, r == 1, r == BVV(0xFFFFFFFD, 32), r == BVV(0xFFFFFFFB, 32), r == BVV(0xFFFFFFFC, 32))); st.model = None
+        return r
     @reg('ZSTD_compressBound', 'compressBound')
     def _cbound(E, st, fr, a, d):
         n = a[0]
